@@ -21,8 +21,11 @@ import (
 	"io/fs"
 	"path/filepath"
 	"sort"
+	"sync"
+	"time"
 
 	"github.com/pgavlin/dawn"
+	"github.com/pgavlin/dawn/label"
 	starlark_os "github.com/pgavlin/dawn/lib/os"
 	"github.com/pgavlin/dawn/util"
 	"go.starlark.net/starlark"
@@ -590,6 +593,281 @@ func ignoreTree(r *rng, tmp string, idx int) {
 	}
 }
 
+// ---- os.glob() called from target BODIES (the thread's working directory is the package directory) and the
+// ---- ignore list as used by watch mode ------------------------------------------------------------------
+
+type recEvents struct {
+	dawn.Events
+	m       sync.Mutex
+	prints  map[string][]string
+	changed map[string]bool
+}
+
+func newRec() *recEvents {
+	return &recEvents{Events: dawn.DiscardEvents, prints: map[string][]string{}, changed: map[string]bool{}}
+}
+
+func (e *recEvents) Print(l *label.Label, line string) {
+	e.m.Lock()
+	defer e.m.Unlock()
+	e.prints[l.String()] = append(e.prints[l.String()], line)
+}
+
+func (e *recEvents) FileChanged(l *label.Label) {
+	e.m.Lock()
+	defer e.m.Unlock()
+	e.changed[l.String()] = true
+}
+
+func (e *recEvents) has(l string) bool {
+	e.m.Lock()
+	defer e.m.Unlock()
+	return e.changed[l]
+}
+
+func listEntries(dir string) []string {
+	var entries []string
+	filepath.WalkDir(dir, func(path string, d fs.DirEntry, err error) error {
+		if err != nil || path == dir {
+			return nil
+		}
+		rel := filepath.ToSlash(path[len(dir)+1:])
+		if rel == ".dawn" {
+			return fs.SkipDir
+		}
+		entries = append(entries, rel)
+		return nil
+	})
+	sort.Strings(entries)
+	return entries
+}
+
+func bodyGlobTree(r *rng, tmp string, idx int) {
+	root := filepath.Join(tmp, fmt.Sprintf("b%d", idx))
+	os.MkdirAll(filepath.Join(root, "sub"), 0o755)
+	defer os.RemoveAll(root)
+	for i, n := 0, 4+r.below(10); i < n; i++ {
+		parts := []string{}
+		if r.below(2) == 0 {
+			parts = append(parts, "sub")
+		}
+		for d, depth := 0, r.below(3); d < depth; d++ {
+			parts = append(parts, genName(r))
+		}
+		parts = append(parts, genName(r))
+		p := filepath.Join(append([]string{root}, parts...)...)
+		if st, err := os.Stat(p); err == nil && st.IsDir() {
+			continue
+		}
+		if os.MkdirAll(filepath.Dir(p), 0o755) != nil {
+			continue
+		}
+		os.WriteFile(p, []byte("x"), 0o644)
+	}
+	type q struct{ inc, exc []string }
+	mk := func() []q {
+		var qs []q
+		for i := 0; i < 3; i++ {
+			var c q
+			for j, n := 0, 1+r.below(2); j < n; j++ {
+				c.inc = append(c.inc, genSetPattern(r))
+			}
+			for j, n := 0, r.below(2); j < n; j++ {
+				c.exc = append(c.exc, genSetPattern(r))
+			}
+			qs = append(qs, c)
+		}
+		return qs
+	}
+	body := func(name string, qs []q) string {
+		var b strings.Builder
+		fmt.Fprintf(&b, "@target()\ndef %s():\n", name)
+		for i, c := range qs {
+			fmt.Fprintf(&b, "    print(\"OSG%d=\" + \"\\x1f\".join(os.glob(%s, exclude=%s)))\n", i, slist(c.inc), slist(c.exc))
+		}
+		return b.String()
+	}
+	rootQs, subQs := mk(), mk()
+	os.WriteFile(filepath.Join(root, ".dawnconfig"), nil, 0o644)
+	os.WriteFile(filepath.Join(root, "BUILD.dawn"), []byte(body("t", rootQs)+"\n@target(deps=[t, \"//sub:s\"])\ndef default():\n    pass\n"), 0o644)
+	os.WriteFile(filepath.Join(root, "sub", "BUILD.dawn"), []byte(body("s", subQs)), 0o644)
+	rootEntries, subEntries := listEntries(root), listEntries(filepath.Join(root, "sub"))
+	rec := newRec()
+	proj, err := dawn.Load(root, &dawn.LoadOptions{Events: rec, Builtins: starlark.StringDict{"os": starlark_os.Module}})
+	if err != nil {
+		stats["bodyglob_load_errors"]++
+		if stats["bodyglob_load_errors"] < 3 {
+			fmt.Fprintf(os.Stderr, "bodyglob: load error: %v\n", err)
+		}
+		return
+	}
+	def, _ := label.Parse("//:default")
+	if err := proj.Run(def, nil); err != nil {
+		stats["bodyglob_run_errors"]++
+		if stats["bodyglob_run_errors"] < 3 {
+			fmt.Fprintf(os.Stderr, "bodyglob: run error: %v\n", err)
+		}
+		return
+	}
+	check := func(lbl string, qs []q, universe []string) {
+		rec.m.Lock()
+		lines := append([]string(nil), rec.prints[lbl]...)
+		rec.m.Unlock()
+		for i, c := range qs {
+			prefix := fmt.Sprintf("OSG%d=", i)
+			var got []string
+			found := false
+			for _, l := range lines {
+				if strings.HasPrefix(l, prefix) {
+					found = true
+					if rest := l[len(prefix):]; rest != "" {
+						got = strings.Split(rest, "\x1f")
+					}
+				}
+			}
+			if !found {
+				violation("glob-builtin-harness", c.inc, "", "no output of os.glob from the body of "+lbl)
+				continue
+			}
+			var g2 []string
+			for _, p := range got {
+				if p != ".dawn" && !strings.HasPrefix(p, ".dawn/") {
+					g2 = append(g2, p)
+				}
+			}
+			sort.Strings(g2)
+			var want []string
+			for _, p := range universe {
+				if refSet(c.inc, p) && !refSet(c.exc, p) {
+					want = append(want, p)
+				}
+			}
+			stats["bodyglob_queries"]++
+			stats["bodyglob_selected"] += len(g2)
+			emit("glob.bodyselect", "select "+pats(c.inc)+" "+pats(c.exc)+" "+hxs(universe), "ok "+hxs(g2))
+			if strings.Join(g2, "\x00") != strings.Join(want, "\x00") {
+				nviol++
+				bb, _ := json.Marshal(map[string]any{"kind": "os.glob-in-target-body-selection-differs", "detail": fmt.Sprintf("target %s: got %q want %q", lbl, g2, want),
+					"patterns": c.inc, "path": "", "input": map[string]any{"builtin": "os.glob in the body of " + lbl, "include": c.inc, "exclude": c.exc, "tree": universe}})
+				if nviol <= 20 {
+					fmt.Fprintf(out, "V\t%s\n", bb)
+				}
+			}
+		}
+	}
+	check("//:t", rootQs, rootEntries)
+	check("//sub:s", subQs, subEntries)
+}
+
+func watchTree(r *rng, tmp string, idx int) {
+	root := filepath.Join(tmp, fmt.Sprintf("w%d", idx))
+	os.MkdirAll(root, 0o755)
+	defer os.RemoveAll(root)
+	if rr, err := filepath.EvalSymlinks(root); err == nil {
+		root = rr
+	}
+	dirs := []string{"", "src", "gen", "gen/deep", "scratch", "src/cache", "src/cache/sub", "lib", "s[1]"}
+	for _, d := range dirs {
+		os.MkdirAll(filepath.Join(root, filepath.FromSlash(d)), 0o755)
+		os.WriteFile(filepath.Join(root, filepath.FromSlash(d), "seed"), nil, 0o644)
+	}
+	all := []string{"gen/**", "scratch", "*/cache/*.bin", "src", "src/*", "**/*.txt", "lib/?", "*", "gen/*", "s\\[1\\]/*", "??p.txt", "scratch/*", "**/deep/**", "src?main.txt", "*.bin"}
+	var ign []string
+	for {
+		ign = nil
+		for j, n := 0, 1+r.below(3); j < n; j++ {
+			ign = append(ign, all[r.below(len(all))])
+		}
+		if !refSet(ign, "zz_ready") && !refSet(ign, "zz_done") && !refSet(ign, "") {
+			break
+		}
+	}
+	os.WriteFile(filepath.Join(root, "dawn.toml"), []byte("ignore = "+slist(ign)+"\n"), 0o644)
+	os.WriteFile(filepath.Join(root, "BUILD.dawn"), []byte("@target(default=True)\ndef all():\n    pass\n"), 0o644)
+	rec := newRec()
+	proj, err := dawn.Load(root, &dawn.LoadOptions{Events: rec})
+	if err != nil {
+		stats["watch_load_errors"]++
+		fmt.Fprintf(os.Stderr, "watch: load error: %v\n", err)
+		return
+	}
+	def, _ := label.Parse("//:default")
+	werr := make(chan error, 1)
+	go func() { werr <- proj.Watch(def) }()
+	touch := func(rel string) {
+		os.WriteFile(filepath.Join(root, filepath.FromSlash(rel)), []byte(time.Now().String()), 0o644)
+	}
+	waitFor := func(rel string) bool {
+		l := "source://:" + rel
+		deadline := time.Now().Add(15 * time.Second)
+		for !rec.has(l) {
+			select {
+			case e := <-werr:
+				fmt.Fprintf(os.Stderr, "watch: %v\n", e)
+				return false
+			default:
+			}
+			if time.Now().After(deadline) {
+				return false
+			}
+			touch(rel)
+			time.Sleep(40 * time.Millisecond)
+		}
+		return true
+	}
+	if !waitFor("zz_ready") {
+		stats["watch_not_started"]++
+		return
+	}
+	names := []string{"out.txt", "blob.bin", "main.txt", "x", "top.txt", "a", "notes.txt"}
+	var touched []string
+	for i := 0; i < 14; i++ {
+		d := dirs[r.below(len(dirs))]
+		p := names[r.below(len(names))]
+		if d != "" {
+			p = d + "/" + p
+		}
+		touched = append(touched, p)
+		touch(p)
+	}
+	if !waitFor("zz_done") {
+		stats["watch_no_sentinel"]++
+		return
+	}
+	b := func(x bool) string {
+		if x {
+			return "1"
+		}
+		return "0"
+	}
+	seen := map[string]bool{}
+	for _, p := range touched {
+		if seen[p] {
+			continue
+		}
+		seen[p] = true
+		dir, base := "", p
+		if k := strings.LastIndex(p, "/"); k >= 0 {
+			dir, base = p[:k], p[k+1:]
+		}
+		reported := rec.has("source://" + dir + ":" + base)
+		ignored := refSet(ign, p)
+		stats["watch_paths"]++
+		if ignored {
+			stats["watch_ignored"]++
+		}
+		emit("glob.watch", "match "+pats(ign)+" "+hx(p), "ok "+b(!reported)+" "+b(ignored))
+		if reported == ignored {
+			nviol++
+			bb, _ := json.Marshal(map[string]any{"kind": "watch-ignore-list-differs", "detail": fmt.Sprintf("%s: matched by the ignore list = %v, FileChanged reported = %v", p, ignored, reported),
+				"patterns": ign, "path": p, "input": map[string]any{"watch": true, "ignore": ign, "changed": p}})
+			if nviol <= 20 {
+				fmt.Fprintf(out, "V\t%s\n", bb)
+			}
+		}
+	}
+}
+
 func enumerate(alpha []string, maxLen int, f func(string)) {
 	var rec func(prefix string, n int)
 	rec = func(prefix string, n int) {
@@ -701,6 +979,16 @@ func main() {
 	for i := 0; i < nt; i++ {
 		selectTree(r, tmp, i)
 		ignoreTree(r, tmp, i)
+		if i%2 == 0 {
+			bodyGlobTree(r, tmp, i)
+		}
+	}
+	nw := 3
+	if *tier == "thorough" {
+		nw = 30
+	}
+	for i := 0; i < nw; i++ {
+		watchTree(r, tmp, i)
 	}
 
 	// 3. invalid UTF-8 and NUL: outside the model, must not crash
